@@ -172,7 +172,12 @@ _names = st.one_of(
     st.builds(lambda a, v, b: "%s (version %02d)%s" % (a, v, b), st.text(_name_chars, max_size=8), st.integers(0, 99), st.sampled_from(["", " ", " x"])),
     st.builds(lambda c, p, d, v, r: "%05d-%04d-%04d-%02d%s" % (c, p, d, v, r), st.integers(0, 99999), st.integers(0, 9999), st.integers(0, 9999), st.integers(0, 99),
               st.sampled_from(["", " tail", "x"])),
+    # a complete numeric identifier (or version suffix) EMBEDDED after the first character: still a name, never a numeric identifier
+    st.builds(lambda pre, c, p, d, v, r: "%s%05d-%04d-%04d-%02d%s" % (pre, c, p, d, v, r), st.sampled_from(["x", "Replaces ", " ", "v", "1", "-", "0 ", "see:"]),
+              st.integers(0, 99999), st.integers(0, 9999), st.integers(0, 9999), st.integers(0, 99), st.sampled_from(["", " tail", " (version 03)"])),
 )
+_EMBEDDED = st.builds(lambda pre, c, p, d, v, r: "%s%05d-%04d-%04d-%02d%s" % (pre, c, p, d, v, r), st.sampled_from(["x", " ", "id ", "1", "-", "#", "\t", "a\n"]),
+                      st.integers(0, 99999), st.integers(0, 9999), st.integers(0, 9999), st.integers(0, 99), st.sampled_from(["", " name", "x"]))
 
 
 def strat_names(tier):
@@ -205,6 +210,7 @@ def strat_reject(tier):
         st.text(st.sampled_from("0123456789- (version)"), max_size=30),
         st.builds(lambda a, b: a + b, st.sampled_from(["1234-1234-1234-12", "12345-123-1234-12", "12345-1234-1234-1", "12345_1234_1234_12", "name (version 7)", "name (Version 07)", "name(version 07)", ""]), st.text(max_size=5)),
         _names,
+        _EMBEDDED,
     )))
 
 
